@@ -667,6 +667,17 @@ fn gen_pos(r: &mut Rng, n: usize, out: &mut dyn Write) {
         let tl = GenTl { shape: "S8".into(), dur: Some(dur), delay: Some(delay), rep: Some(rep.clone()), rev: Some(rev), easing: None, kfs: vec![], exact };
         let ts = times_for(r, &tl, 6);
         writeln!(out, "pos {} {} {} {} {}", b(dur), b(delay), rep, rev as u8, ts.iter().map(|t| b(*t)).collect::<Vec<_>>().join(" ")).unwrap();
+        // `prepare_frame` called directly (public; every generated `update` starts with it): boundary lists of 0…40 sorted
+        // positions with repeats, queried at a few of the same times
+        if i % 4 == 0 {
+            let nb = r.pick(&[0usize, 1, 2, 3, 4, 5, 7, 8, 9, 16, 17, 33, 40]);
+            let mut bt: Vec<f32> = (0..nb).map(|_| match r.below(6) { 0 => 0.0, 1 => 1.0, 2 => r.unit_f32(), _ => r.below(17) as f32 / 16.0 }).collect();
+            bt.sort_by(|a, c| a.total_cmp(c));
+            let bts = bt.iter().map(|t| b(*t)).collect::<Vec<_>>().join(" ");
+            for t in ts.iter().take(6) {
+                writeln!(out, "prep {} {} {} {} {} {} {}", b(dur), b(delay), rep, rev as u8, b(*t), nb, bts).unwrap();
+            }
+        }
     }
 }
 
